@@ -22,6 +22,8 @@ type PropSpec struct {
 	Undecided  []string
 	Assumes    []string
 	Bounded    []string // names of bounded stand-ins (thorough tier), see bounded.go
+	Sweep      bool
+	AllFuncs   []string // "<pkg> <classes...>": every function of the package that has a contract
 	Generate   []string // "c13 <worker> <HeaderConst>": pinned posts derived mechanically from the code's header constants
 	Replay     string   // replay oracle family
 	Meta       []string // meta-theorems relied upon
@@ -76,6 +78,12 @@ func loadProp(id string) (*PropSpec, error) {
 			continue
 		case "generate":
 			ps.Generate = append(ps.Generate, rest)
+			continue
+		case "sweep":
+			ps.Sweep = true
+			continue
+		case "allfuncs":
+			ps.AllFuncs = append(ps.AllFuncs, rest)
 			continue
 		}
 		lines = append(lines, rawLine{l, file, i + 1})
@@ -173,6 +181,23 @@ func runCheck(e *Engine, id, tier string, dir string) (*checkResult, error) {
 			}
 			ps.Blocks = append(ps.Blocks, fc)
 		}
+	}
+	for _, af := range ps.AllFuncs {
+		f := strings.Fields(af)
+		var keys []string
+		for k, c := range e.contracts {
+			if strings.HasPrefix(k, f[0]+".") && !c.Trusted {
+				keys = append(keys, k)
+			}
+		}
+		sort.Strings(keys)
+		for _, k := range keys {
+			ps.Blocks = append(ps.Blocks, &FuncContract{Name: k, Loops: map[int]*LoopContract{}, Props: map[string]bool{id: true}, Classes: f[1:]})
+		}
+	}
+	// package sweep: no function assigns the package-level tables
+	if ps.Sweep {
+		res.obls = append(res.obls, e.sweepGlobals()...)
 	}
 	// group blocks per function
 	byFunc := map[string][]*FuncContract{}
